@@ -702,14 +702,13 @@ class FIXSchema:
             field = self._tag2field[tag]
 
             if field in self._header:
-                continue
-
-            if field not in schema_msg:
+                fschema = self._header[field]
+            elif field not in schema_msg:
                 raise FIXMessageError(
                     f"msg field={field} is not allowed in {schema_msg}"
                 )
-
-            fschema = schema_msg[field]
+            else:
+                fschema = schema_msg[field]
             if isinstance(fschema, SchemaField):
                 if msg.is_group(tag):
                     raise FIXMessageError(
